@@ -38,3 +38,31 @@ package numeric
 //@     invariant sortableBits == int64((sortable(in) >> shift) >> (7 * (nchars(shift) - nChars)))
 //@     invariant forall j uint :: nChars < j && j <= nchars(shift) ==> rv[j] == digit(in, shift, j)
 //@     decreases nChars
+
+//@ func PrefixCoded.Shift
+//@   mode bv
+//@   nopanic
+//@   ensures (len(p) > 0 && p[0] - 0x20 < 63) ==> (result1 == nil && result0 == uint(p[0] - 0x20))
+//@   ensures !(len(p) > 0 && p[0] - 0x20 < 63) ==> result1 != nil
+
+// Decoder against the encoder's digits: if p holds the digits of (gv, gs), gs <= 62,
+// then Int64 returns gv with its low gs bits cleared.
+//@ func PrefixCoded.Int64
+//@   mode bv
+//@   nopanic
+//@   ghost gv int64
+//@   ghost gs uint
+//@   requires gs <= 62 && len(p) == int64(nchars(gs)) + 1 && p[0] == 0x20 + byte(gs)
+//@   requires forall j uint :: 1 <= j && j <= nchars(gs) ==> p[j] == digit(gv, gs, j)
+//@   ensures result1 == nil && result0 == int64(((sortable(gv) >> gs) << gs) ^ 0x8000000000000000)
+//@   loop 1
+//@     invariant shift == gs
+//@     invariant rangeindex < int64(nchars(gs))
+//@     invariant sortableBits == int64((sortable(gv) >> gs) >> (7 * (nchars(gs) - uint(rangeindex + 1))))
+
+//@ func ValidPrefixCodedTermBytes
+//@   mode bv
+//@   nopanic
+//@   ensures valid <==> (len(p) > 0 && p[0] >= 0x20 && p[0] <= 0x5f && len(p) == int64(nchars(uint(p[0] - 0x20))) + 1)
+//@   ensures valid ==> shift == int64(p[0] - 0x20)
+//@   ensures !valid ==> shift == 0
